@@ -502,6 +502,29 @@ def r13_16(ctx, rep):
                "the fixed conversion is reached by regular values as well: an Integer variable's substituted attribute becomes a float")
 
 
+@SPEC.rule(
+    "R13.17",
+    "a variable occupies as many metadata rows as it has scalar elements: nowhere in casadi/api.py is a row count alone (`size1()`, `rows()`, "
+    "`shape[0]`) used as the width of a variable in a stacked vector or matrix — the metadata function has numel() rows per variable, and a "
+    "loader that advances by size1() hands `Real w[2,3](each max = p)` two of its six values and shifts every later variable's attributes "
+    "(zero-count lint with a positive self-test)",
+)
+def r13_17(ctx, rep):
+    from ._literal import _selftest_row_counts, row_counts_used_as_widths
+    R = "R13.17"
+    if not _selftest_row_counts():
+        raise AnalysisError(R, "self-test of the row-count lint failed")
+    mod = ctx.module(API, R)
+    fns = [f for f in mod.body if isinstance(f, ast.FunctionDef)]
+    if len(fns) < 4:
+        raise MechanismMissing(R, "casadi/api.py has fewer than 4 functions")
+    for f in fns:
+        hits = row_counts_used_as_widths(f)
+        rep.ob(R, API + ":" + f.name, "no row count stands for an element count", not hits,
+               "%s: the width of a variable is numel(); with rows only, a two-dimensional variable gets too few slots and everything after it is shifted"
+               % "; ".join("`%s`" % t for _l, t in hits[:3]))
+
+
 # -- seeded variants ---------------------------------------------------------
 @SPEC.rule(
     "R13.7",
@@ -728,3 +751,21 @@ def _m_hessian_at_zero(mod):
         return False
 
     return mod if replace_in_func(mod, "Model.variable_metadata_function", edit) else None
+
+
+@SPEC.mutant("cached metadata rows advance by size1()", API, "R13.17", "no row count stands for an element count")
+def _m_rows_size1(mod):
+    def edit(fn):
+        for c in ast.walk(fn):
+            if isinstance(c, ast.Call) and isinstance(c.func, ast.Attribute) and c.func.attr == "numel" and isinstance(getattr(c, "_parent", None), ast.BinOp):
+                c.func.attr = "size1"
+                return True
+        for c in ast.walk(fn):
+            if isinstance(c, ast.Call) and is_name(c.func, "slice"):
+                for x in ast.walk(c):
+                    if isinstance(x, ast.Attribute) and x.attr == "numel":
+                        x.attr = "size1"
+                        return True
+        return False
+
+    return mod if replace_in_func(mod, "load_model", edit) else None
